@@ -92,6 +92,166 @@ fn join_case(t: &mut Tape, obs: &mut Obs, max_hsa_extra: u64) -> CaseResult {
     Ok(())
 }
 
+// ---------------------------------------------------------------------------------------------
+// LAS of a listening station against a specification-level model
+// ---------------------------------------------------------------------------------------------
+
+const LTS: u8 = 4;
+
+/// Feed a listening station (it never gets to claim: tokens keep arriving) with the token passes
+/// `passes` and judge its view of the ring after every pass.  `chained`: consecutive passes form a
+/// walk (da of one = sa of the next), so complete rotations can be compared pass by pass.
+fn las_case(passes: &[(u8, u8)], chained: bool, obs: &mut Obs) -> CaseResult {
+    use crate::envsim::*;
+    let mut w = World::new(LTS, 16, profirust::Baudrate::B1500000, 300, 10, None);
+    w.step_us = 9;
+    w.step(30);
+    // rotations: lists of valid passes, closed by a wrap-around pass (da <= sa)
+    let mut rotations: Vec<Vec<(u8, u8)>> = vec![];
+    let mut cur: Vec<(u8, u8)> = vec![];
+    let mut wraps = 0usize;
+    let mut was_ready = false;
+    for (i, (sa, da)) in passes.iter().enumerate() {
+        w.inject(&token(*sa, *da), &mut ());
+        w.step(20);
+        let tr = w.fdl.inspect_token_ring();
+        let las: Vec<u8> = tr.iter_active_stations().collect();
+        let ready = tr.ready_for_ring();
+        let ctx = || format!("after pass #{} {}->{} of {:?}: LAS {:?}, ready {}, NS {}, PS {}", i, sa, da, passes, las, ready, tr.next_station(), tr.previous_station());
+        ensure!(!w.fdl.is_in_ring() || w.state_name() == "ActiveIdle", "listener-took-token", "listening station left ListenToken: {}", ctx());
+        ensure!(w.sent_since(0).is_empty(), "listener-transmitted", "a station that is merely listening transmitted: {}", ctx());
+        let valid = *sa <= 125 && *da <= 125;
+        if valid {
+            cur.push((*sa, *da));
+            if da <= sa {
+                wraps += 1;
+                if wraps >= 2 {
+                    rotations.push(std::mem::take(&mut cur));
+                } else {
+                    cur.clear(); // what came before the first wrap-around is not a rotation
+                }
+            }
+        }
+        // (1) readiness needs two complete identical rotations after the first wrap-around
+        if ready && !was_ready {
+            ensure!(wraps >= 3, "ready-too-early", "ready_for_ring() after {} wrap-arounds only: {}", wraps, ctx());
+            if chained {
+                // Reading of 'two identical rotations' that tolerates stations leaving at a rotation
+                // boundary: the last complete rotation B is a closed cycle in ascending order, every
+                // pass of it was already witnessed in the rotation before, and the LAS is exactly
+                // the set of stations passing the token in B.
+                let n = rotations.len();
+                ensure!(n >= 2, "ready-without-identical-rotations", "ready_for_ring() after a single complete rotation: {}", ctx());
+                let (a, b) = (&rotations[n - 2], &rotations[n - 1]);
+                let closed = b.windows(2).all(|w| w[0].1 == w[1].0) && b.last().map(|l| l.1) == b.first().map(|f| f.0);
+                ensure!(closed, "ready-without-identical-rotations", "ready_for_ring() although the last rotation {:?} is not a closed cycle: {}", b, ctx());
+                ensure!(b.iter().all(|p| a.contains(p)), "ready-without-identical-rotations", "ready_for_ring() although the last rotation {:?} contains a pass that was not witnessed in the rotation before {:?}: {}", b, a, ctx());
+                let mut src: Vec<u8> = b.iter().map(|p| p.0).filter(|x| *x != LTS).collect();
+                src.sort();
+                src.dedup();
+                let others: Vec<u8> = las.iter().copied().filter(|x| *x != LTS).collect();
+                ensure!(src == others, "ready-with-wrong-las", "ready_for_ring() with LAS {:?} but the stations passing the token in the last rotation are {:?}: {}", others, src, ctx());
+            }
+            obs.label("became-ready");
+        }
+        // ... and three identical complete rotations in a row are enough
+        if chained && !ready {
+            let n = rotations.len();
+            if n >= 3 && rotations[n - 1] == rotations[n - 2] && rotations[n - 2] == rotations[n - 3] && cur.is_empty() && !rotations[n - 1].iter().any(|(a, b)| *a == LTS || *b == LTS) {
+                fail!("not-ready-after-three-rotations", "three identical complete rotations witnessed but ready_for_ring() is still false: {}", ctx());
+            }
+        }
+        was_ready = ready;
+        // (2) once ready: the source of a witnessed pass is in the LAS and nobody between source and destination
+        if ready && valid {
+            ensure!(las.contains(sa), "las-missing-source", "the station that just passed the token is not in the LAS: {}", ctx());
+            let between = |x: u8| if da > sa { x > *sa && x < *da } else { x > *sa || x < *da };
+            if let Some(x) = las.iter().find(|x| between(**x) && **x != LTS) {
+                fail!("las-stale-station", "station #{} lies between source and destination of the witnessed pass but is still in the LAS: {}", x, ctx());
+            }
+        }
+        // (4) NS / PS are the cyclic neighbours of TS in the LAS
+        // (a listening station is not part of the ring, so its own address may be absent)
+        let others: Vec<u8> = las.iter().copied().filter(|a| *a != LTS).collect();
+        let ns = others.iter().copied().find(|a| *a > LTS).or(others.first().copied()).unwrap_or(LTS);
+        let ps = others.iter().rev().copied().find(|a| *a < LTS).or(others.last().copied()).unwrap_or(LTS);
+        ensure!(tr.next_station() == ns && tr.previous_station() == ps, "neighbours", "NS/PS are not the cyclic neighbours of the own address in the LAS: {}", ctx());
+        ensure!(las.iter().all(|a| *a <= 125), "las-invalid-address", "invalid address in the LAS: {}", ctx());
+    }
+    Ok(())
+}
+
+const LAS_ALPHABET: [u8; 5] = [1, 3, 6, 9, 200];
+
+fn las_walk(i: u64, len: u32, obs: &mut Obs) -> CaseResult {
+    // chained walk: start address + len further addresses
+    let mut code = i;
+    let mut addrs = vec![];
+    for _ in 0..=len {
+        addrs.push(LAS_ALPHABET[(code % 5) as usize]);
+        code /= 5;
+    }
+    let passes: Vec<(u8, u8)> = addrs.windows(2).map(|w| (w[0], w[1])).collect();
+    obs.nontrivial(i);
+    if i % 40_009 == 0 {
+        obs.sample(|| json!({"listening_station": LTS, "token_passes": passes.iter().map(|(a, b)| format!("{a}->{b}")).collect::<Vec<_>>()}));
+    }
+    // passes with an invalid address are ignored by the station, which breaks the walk
+    let chained = addrs.iter().all(|a| *a <= 125);
+    las_case(&passes, chained, obs)
+}
+
+fn las_random(t: &mut Tape, obs: &mut Obs) -> CaseResult {
+    // rotations of a random ring started at a random point, with occasional disturbances
+    let n = 1 + t.below(5) as usize;
+    let mut ring: Vec<u8> = vec![];
+    let mut guard = 0;
+    while ring.len() < n {
+        guard += 1;
+        let mut a = t.below(16) as u8;
+        if guard > 8 {
+            // exhausted tape: take the first free address
+            a = (0..16).find(|x| *x != LTS && !ring.contains(x)).unwrap();
+        }
+        if a != LTS && !ring.contains(&a) {
+            ring.push(a);
+        }
+    }
+    ring.sort();
+    let mut pos = t.below(n as u64) as usize;
+    let len = 4 + t.below(56) as usize;
+    let mut passes = vec![];
+    let mut chained = true;
+    for _ in 0..len {
+        let sa = ring[pos % n];
+        let da = ring[(pos + 1) % n];
+        pos += 1;
+        match t.below(12) {
+            0 => {
+                // a station skips its successor / a stray pass
+                passes.push((sa, ring[(pos + 1) % n]));
+                pos += 1;
+            }
+            1 => {
+                passes.push((*t.pick(&[200u8, 126, 127, 255]), da));
+                chained = false;
+            }
+            2 => {
+                passes.push((t.below(16) as u8, t.below(16) as u8));
+                chained = false;
+            }
+            _ => passes.push((sa, da)),
+        }
+    }
+    let passes: Vec<(u8, u8)> = passes.into_iter().filter(|(s, _)| *s != LTS).collect();
+    // chained only if really a walk
+    let chained = chained && passes.windows(2).all(|w| w[0].1 == w[1].0);
+    obs.nontrivial(fingerprint(&passes));
+    obs.label(if chained { "chained-walk" } else { "with-stray-passes" });
+    obs.sample(|| json!({"ring": ring, "token_passes": passes.iter().map(|(a, b)| format!("{a}->{b}")).collect::<Vec<_>>()}));
+    las_case(&passes, chained, obs)
+}
+
 pub fn property() -> Property {
     Property {
         id: "C02",
@@ -103,10 +263,19 @@ pub fn property() -> Property {
         subchecks: vec![
             SubCheck::tape("join", "random join histories, HSA up to N+1+20", |t, obs| join_case(t, obs, 20)),
             SubCheck::tape("join_wide", "random join histories, HSA up to N+1+120", |t, obs| join_case(t, obs, 120)),
+            SubCheck::index("las_walks7", "LAS of a listening station vs a specification-level model: ALL chained walks of 7 token passes over the addresses {1, 3, 6, 9, 200}", |i, obs| las_walk(i, 7, obs)),
+            SubCheck::index("las_walks9", "the same with 9 token passes", |i, obs| las_walk(i, 9, obs)),
+            SubCheck::tape("las_random", "rotations of random rings (up to 60 passes) with skipped stations, invalid addresses and stray passes", las_random),
         ],
         plan: |tier| match tier {
-            Tier::Quick => vec![Step::Pbt { kind: "join", cases: 240, max_len: 64 }],
+            Tier::Quick => vec![
+                Step::Enumerate { kind: "las_walks7", count: 5u64.pow(8) },
+                Step::Pbt { kind: "las_random", cases: 3000, max_len: 140 },
+                Step::Pbt { kind: "join", cases: 240, max_len: 64 },
+            ],
             Tier::Thorough => vec![
+                Step::Enumerate { kind: "las_walks9", count: 5u64.pow(10) },
+                Step::Pbt { kind: "las_random", cases: 200_000, max_len: 140 },
                 Step::Pbt { kind: "join", cases: 4000, max_len: 64 },
                 Step::Pbt { kind: "join_wide", cases: 600, max_len: 64 },
             ],
